@@ -1,4 +1,5 @@
 pub mod c01;
+pub mod c02;
 pub mod c03;
 pub mod c04;
 pub mod c05;
@@ -17,6 +18,6 @@ pub mod lexemes;
 use crate::engine::PropDef;
 
 pub fn registry() -> &'static [PropDef] {
-    static REG: &[PropDef] = &[c01::DEF, c03::DEF, c04::DEF, c05::DEF, c06::DEF, c07::DEF, c08::DEF, c09::DEF, c10::DEF, c12::DEF, c14::DEF];
+    static REG: &[PropDef] = &[c01::DEF, c02::DEF, c03::DEF, c04::DEF, c05::DEF, c06::DEF, c07::DEF, c08::DEF, c09::DEF, c10::DEF, c12::DEF, c14::DEF];
     REG
 }
